@@ -48,7 +48,7 @@ SRV_NOTE = ("one writer goroutine that finally calls Close; Low-Latency, one H26
             "runtime at quiescent points; schedules at the granularity of the muxer's critical sections")
 SRV_TECH = "TLA+ model (MuxerServe.tla) checked by TLC (safety + liveness); TLC-generated and attack schedules replayed on the real Muxer with gated goroutines; TLC trace validation"
 CLAIMED["C06"] = dict(cat="model_checking", note=SRV_NOTE, technique=SRV_TECH, ref="7 C06",
-  text="MuxerServe.tla models writer / handlers / Close over the mutex and condition variable; TLC checks that a parked blocking reload or preload hint is never satisfiable at a quiescent point, that a 200 contains the requested part, that a 400 is immediate and never for the open segment or the next, and refutes the weakened variants; the schedules are replayed on the real Muxer and the same predicates are evaluated on the observed responses and goroutine states")
+  text="MuxerServe.tla models writer / handlers / Close over the mutex and condition variable; TLC checks that a parked blocking reload or preload hint is never satisfiable at a quiescent point, that a 200 contains the requested part, that a 400 is immediate and never for the open segment or the next, and refutes the weakened variants; the schedules are replayed on the real Muxer and the same predicates are evaluated on the observed responses and goroutine states; delta updates (_HLS_skip=YES / v2) are compared with the full playlist of the same instant after every Write of Low-Latency histories (C06_DeltaIsSuffix)")
 CLAIMED["C07"] = dict(cat="model_checking", note=SRV_NOTE, technique=SRV_TECH, ref="7 C07",
   text="Close is three model steps (mark under the mutex, Broadcast, per-stream close); TLC checks that after Close returned nobody is left inside, the mutex is free and storage is released for every interleaving with waking waiters (and liveness CloseUnblocks); attack schedules of the weakened variants (stream flag outside the lock, hint handler keeping the lock) and random schedules are replayed on the real Muxer; the directory must be empty after Close in every variant")
 CLAIMED["C08"] = dict(cat="model_checking", note=SRV_NOTE + "; memory-level races are judged by the Go race detector on the same schedules plus a free-running stress run", technique=SRV_TECH + "; Go race detector", ref="7 C08",
@@ -66,18 +66,18 @@ CLAIMED["C15"] = dict(cat="fault_enumeration", ref="7 C15",
 CLI_NOTE = ("streams synthesised by the harness (H264, AAC, Opus; MPEG-TS and fMP4) and served by an in-process http.RoundTripper; "
             "one unit lasts 20 ms (real-time pacing of the client)")
 CLAIMED["C11"] = dict(cat="model_checking", ref="7 C11", note=CLI_NOTE + "; request arrival order at the stub = issue order per stream",
-  text="ClientFetch.tla: the downloader state machine (first playlist, init, Select, segment, reload; Low-Latency hint loop) against a server whose window slides arbitrarily between polls; TLC checks consecutive / start position / too-late / EOS / errors-justified on every reachable state, refutes two weakened selection rules, and emits playlist histories; the real Client is run against each history (plus URI, query, byte-range, rendition, Low-Latency variety) and TLC validates the stub's request log and Wait() against the same operators (ClientRun.tla)",
+  text="ClientFetch.tla: the downloader state machine (first playlist, init, Select, segment, reload; Low-Latency hint loop) against a server whose window slides arbitrarily between polls; TLC checks consecutive / start position / too-late / EOS / errors-justified on every reachable state, refutes two weakened selection rules, and emits playlist histories; the real Client is run against each history (plus variety: relative / dot-dot / absolute-path / absolute-URL references with playlists and media in different directories, query strings, byte ranges with and without start, renditions evolving independently, Low-Latency streams incl. preload hints as byte ranges of one file and Low-Latency renditions) and TLC validates the stub's request log and Wait() against the same operators (ClientRun.tla)",
   technique="TLA+ model + TLC exhaustive check; TLC-generated playlist histories served to the real Client; TLC trace validation of the request log")
 CLAIMED["C10"] = dict(cat="model_checking", ref="7 C10", note=CLI_NOTE + "; arithmetic beyond TLC's 32-bit integers (2^40 bases, 33-bit circle) is evaluated exactly by the trace annotator as error terms that TLC requires to be 0; one recorded finding (stale date-time anchor for early MPEG-TS units) is tolerated by signature",
-  text="ClientRun.tla judges every OnTracks / OnData callback of the real Client over synthesised streams (timestamp bases 0..2^40 and around the 33-bit wrap, 1 video + 0..3 audio in one playlist or as renditions with different time scales, track order / id permutations, B-frame PTS offsets, multi-fragment segments, byte ranges, PROGRAM-DATE-TIME with jumps, VOD and live starts): track list, byte identity, per-track order and exactly-once, only downloaded units, never negative time, DTS / PTS / AbsoluteTime error terms, everything delivered at EOS",
+  text="ClientRun.tla judges every OnTracks / OnData callback of the real Client over synthesised streams (timestamp bases 0..2^40 and around the 33-bit wrap, 1 video + 0..3 audio in one playlist or as renditions with different time scales, track order / id permutations, B-frame PTS offsets, multi-fragment segments, several audio access units per MPEG-TS PES, audio PIDs before the video PID, byte ranges, PROGRAM-DATE-TIME with jumps, Low-Latency parts, VOD and live starts): track list, byte identity, per-track order and exactly-once, only downloaded units, never negative time, DTS / PTS / AbsoluteTime error terms, everything delivered at EOS",
   technique="TLA+ monitor (ClientRun.tla) checked by TLC on traces recorded from the real Client; exact-arithmetic annotator for timestamps")
 
 CLAIMED["C12"] = dict(cat="model_checking", ref="7 C12", note=CLI_NOTE + "; Close points are event instants (request arrival, OnTracks, k-th OnData, after the outcome) plus timer-driven Close; goroutines read from runtime.Stack at the moment Wait yields and for 200 ms afterwards",
-  text="ClientLife.tla models the client's goroutines (run, primary downloader, stream downloader, stream processor, track processor), their rendezvous and the ctx.Done alternative of every blocking step, the routine pool and the single result; TLC checks exactly-one value, no goroutine left, no callback afterwards, error surfaced and termination (liveness) for every Close point x fault x OnTracks error, and refutes the weakened variants (start hand-off without ctx, error path without join); every scenario of the model is run on the real Client (fast and slow callbacks) and TLC validates the observations (ClientRun.tla); real outcomes are compared with the model's outcome sets",
+  text="ClientLife.tla models the client's goroutines (run, primary downloader, stream downloader, stream processor, track processor), their rendezvous and the ctx.Done alternative of every blocking step, the routine pool and the single result; TLC checks exactly-one value, no goroutine left, no callback afterwards, error surfaced and termination (liveness) for every Close point x fault x OnTracks error, and refutes the weakened variants (start hand-off without ctx, error path without join); every scenario of the model is run on the real Client (fast and slow callbacks) and TLC validates the observations (ClientRun.tla); real outcomes are compared with the model's outcome sets; further scenarios outside the one-stream model: leading stream + rendition with Close / faults at every request and errors of one stream while the other waits for it (ClientLife2.tla is their design model, thorough tier), segments with more samples than the track queues hold, segments with more part tracks than the completion channel used to hold",
   technique="TLA+ model + TLC safety/liveness; model scenarios (Close point x fault) executed on the real Client; TLC trace validation")
 
 CLAIMED["C13"] = dict(cat="fault_enumeration", ref="7 C13", note=CLI_NOTE + "; structure-aware content faults, not coverage-guided fuzzing of arbitrary bytes (DESIGN section 9); a client still pacing a sample (<= 10 s by design) at the end of the budget is not counted as wedged",
-  text="a catalogue of content faults (generic truncation / garbage / duplication; playlist faults: huge or negative numbers, missing URIs, wrong playlist kind, bad byte ranges, unknown codecs, missing group; init faults: codecs without decoder as extra / leading / all tracks, time scale 0, extra / missing / duplicate / too many tracks; segment faults: no leading-track data, undeclared traf, empty trun, zero / huge durations, base times and offsets, other container, unsupported MPEG-TS codecs, missing PMT, 20 s jumps) is applied at every response position of six stream layouts (MPEG-TS, fMP4 with permuted tracks, renditions in both containers, Low-Latency), with and without a later Close; a crash of the process, no outcome within the budget while nothing is being paced, a leaked goroutine or a second value are violations, judged by TLC on the recorded runs (ClientRun.tla)",
+  text="a catalogue of content faults (generic truncation / garbage / duplication; playlist faults: huge or negative numbers, missing URIs, wrong playlist kind, bad byte ranges, unknown codecs, missing group; init faults: codecs without decoder as extra / leading / all tracks, time scale 0, extra / missing / duplicate / too many tracks; any tag or attribute the client relies on dropped from a first or a reloaded playlist; renditions in another container than the leading stream; segment faults: no leading-track data, undeclared traf, empty trun, zero / huge durations, base times and offsets, other container, unsupported MPEG-TS codecs, missing PMT, 20 s jumps) is applied at every response position of six stream layouts (MPEG-TS, fMP4 with permuted tracks, renditions in both containers, Low-Latency), with and without a later Close; a crash of the process, no outcome within the budget while nothing is being paced, a leaked goroutine or a second value are violations, judged by TLC on the recorded runs (ClientRun.tla)",
   technique="model-driven fault enumeration on the real Client; TLA+ monitor (ClientRun.tla) checked by TLC on the recorded runs; process-level crash detection")
 
 CLAIMED["C09"] = dict(cat="model_checking", ref="7 C09", note="synthetic codecs with the unit identity in the payload (H264, VP9, AV1, AAC, Opus); muxer written in real time by one goroutine, client attached once three segments are listed plus a random delay; SegmentMinDuration >= 600 ms; Low-Latency runs use a wall clock linear in media time; one recorded finding (Low-Latency with TARGETDURATION 0) tolerated by signature",
